@@ -75,7 +75,18 @@ def one_run(kind, c, frames, provider, n_nodes, cid):
                 d = dists[k, n]
                 kps.append(dict(kx=to_u(g[n][0]) if vis else 0, ky=to_u(g[n][1]) if vis else 0, vis=bool(vis and pvis),
                                 d=0 if not np.isfinite(d) else min(to_u(d), 1 << 22), dnan=bool(not np.isfinite(d))))
-            case["pairs"].append(dict(frame=fa[0], animal=fa[1], cfg=fcfg, kps=kps))
+            # The distance bound is a statement about an animal and ITS OWN prediction.  The Evaluator pairs greedily by OKS; for
+            # tiny animals every OKS is in the underflow regime (1e-30 .. 1e-300) and the greedy choice may legitimately pair an
+            # animal with a neighbour's prediction (seed sweep, seed 3).  Own = mutually nearest within the frame, decided by
+            # plain distances, independently of OKS; other pairs are counted, not judged against the inference bound.
+            def mdist(a_, b_):
+                ok_ = np.all(np.isfinite(a_), axis=1) & np.all(np.isfinite(b_), axis=1)
+                return float(np.linalg.norm(a_[ok_] - b_[ok_], axis=1).mean()) if ok_.any() else float("inf")
+            pr_here = [np.asarray(x.numpy(), dtype="float64") for lf in plab if int(lf.frame_idx) == int(ipr.frame_idx) for x in lf.instances]   # one video per run
+            gt_here = [np.asarray(x.numpy(), dtype="float64") for x in labels[fa[0] - 1].instances] if fa[0] else [g]
+            p_np = np.asarray(ipr.instance.numpy(), dtype="float64")
+            own = bool(mdist(g, p_np) <= min(mdist(g, q_) for q_ in pr_here) + 1e-9 and mdist(g, p_np) <= min(mdist(h_, p_np) for h_ in gt_here) + 1e-9)
+            case["pairs"].append(dict(frame=fa[0], animal=fa[1], cfg=fcfg, kps=kps, own=own))
         # an all-NaN placeholder of an empty frame is not an animal: it may be reported as a false negative
         # A false negative counts against the composition only if matching had something to match it with: an unpaired
         # prediction of the same frame whose OKS with it (compute_oks, C15's subject) is positive.  Tiny animals can have
@@ -136,6 +147,7 @@ def run(tier, seed, only=None):
         if todo:
             break
     live = [c for c in cases if not c.get("skip")]
+    res.clause("pairs_not_own_prediction", sum(1 for c in live for p_ in c["pairs"] if not p_.get("own", True)))
     for n, c in enumerate(live):
         c["id"] = n
     j = judge("Judge_X04", [{k_: c[k_] for k_ in ("id", "raised", "fn", "n_animals", "pairs")} for c in live], per_shard_min=20, timeout=900)
